@@ -2366,6 +2366,8 @@ class Interp:
             return None
         if hasattr(it, "sym_for"):
             return it.sym_for(self, s, fr, spec)
+        if hasattr(it, "sym_next") and spec is not None:
+            return self._for_iterator(s, fr, it, spec)
         if isinstance(it, SymSeq):
             return self._for_symseq(s, fr, it, spec)
         return self._for_concrete(s, fr, it)
@@ -2421,6 +2423,46 @@ class Interp:
         fr.locals[idx_name] = SV(i.e + 1, "int")
         tag = getattr(spec, "ob_tag", None)
         self.ob(f"{base}/invariant-preserved{tag(self, fr) if tag else ''}", spec.invariant(self, fr))
+        spec.after_body(self, fr)
+        raise PathEnd()
+
+    def _for_iterator(self, s, fr, it, spec):
+        """`for x in <iterator under contract>` (an object with sym_next, e.g. a generator summarised by its contract): one
+        arbitrary iteration - the loop ends when next() raises StopIteration"""
+        q = fr.fi.qualname
+        k = self.loop_ordinal(fr, s)
+        base = f"{self.cfg.ob_prefix}{q}/loop{k}"
+        idx_name = f"__idx{k}"
+        fr.locals[idx_name] = 0
+        self.ob(f"{base}/invariant-on-entry", spec.invariant(self, fr))
+        names = spec.modifies_locals if spec.modifies_locals is not None else self.assigned_names(s.body)
+        for nm in names:
+            ok, cur = fr.lookup(nm)
+            if ok:
+                fr.locals[nm] = self.fresh_like(cur, nm)
+        i = self.fresh("int", "i")
+        self.assume(i.e >= 0)
+        fr.locals[idx_name] = i
+        spec.seq = it
+        spec.havoc(self, fr)
+        self.assume(spec.invariant(self, fr))
+        try:
+            x = it.sym_next(self, None)
+        except PyRaise as pr:
+            if pr.exc.cls_name != "StopIteration":
+                raise
+            spec.on_exit(self, fr)
+            yield from self.exec_block(s.orelse, fr)
+            return
+        self.assign(s.target, x, fr)
+        try:
+            yield from self.exec_block(s.body, fr)
+        except BreakSig:
+            return
+        except ContinueSig:
+            pass
+        fr.locals[idx_name] = SV(i.e + 1, "int")
+        self.ob(f"{base}/invariant-preserved", spec.invariant(self, fr))
         spec.after_body(self, fr)
         raise PathEnd()
 
